@@ -50,6 +50,9 @@ def func(draw, i):
         ps.append(dict(name=name, kind=kd, default=d, anno=draw(st.sampled_from(ANNOS)),
                        traced=draw(st.sampled_from([0, 0, 1, 2, 3, 4, 5, 6, 7, 8, 9, 9, 10]))))
     where = draw(st.sampled_from(WHERE))
+    if ps and where in ("top", "async", "gen", "staticmethod", "substaticmethod") and draw(st.integers(0, 5)) == 0:
+        # an ordinary first parameter that merely LOOKS like a receiver: a module-level function or static method has none
+        ps[0]["name"] = draw(st.sampled_from(["self", "cls"]))
     return dict(i=i, ps=ps if where not in ("property", "subproperty") else [], varargs=draw(st.sampled_from([None, None, "args"])) if where not in ("property", "subproperty") else None,
                 varkw=draw(st.sampled_from([None, None, "kwargs"])) if where not in ("property", "subproperty") else None, where=where,
                 second_trace=draw(st.sampled_from([None, None, "exception", "exception", "other-return"])),
